@@ -59,6 +59,23 @@ def rule_ode(ctx):
             falsy.append(n)
     ctx.check("C16.1", not falsy, fi, falsy[0] if falsy else fi.node, "ode_system: profile present <=> `apo_func is not None`", "decided by identity",
               "the apodisation profile is tested for truthiness: a user callable that is falsy (an object with __len__() == 0, e.g. a constant np.poly1d) is ignored and the reflectivity is that of the uniform grating")
+    # ... and whether something IS a user profile is a question of `callable(...)`, not of its type: np.poly1d, functools.partial, an
+    # interpolator object, a ufunc are callables and none of them is a function object.  FBG is interpreted up to the solver with an
+    # apodisation that is a callable OBJECT (an instance of numpy.poly1d): no path may end in an exception
+    fb = pkg.func("devices.FBG")
+    ass_c = dict(FBG_ASS)
+    ass_c.update({k: ("truth", v) for k, v in {"fc": True, "landa_D": False, "dneff": False, "vdneff": True, "kL": True, "L": False, "N": False}.items()})
+    ass_c["apodization"] = ("inst", "numpy.poly1d")
+    itc = Interp(pkg, param_classes={"input": "optical_signal"}, assumptions=ass_c, no_inline=("tau_g", "dispersion", "rcos", "si", "db"))
+    itc.domain_pred = lambda callee, args: True if callee in ("callable", "builtins.callable") and args and isinstance(args[0], Form) and args[0] == S("apodization") else None
+    itc.stop_at_calls = {"scipy.integrate.solve_ivp"}
+    outs_c = itc.run(fb)
+    refused = [o for o in outs_c if o.kind == "raise"]
+    reached = any(r.callee == "scipy.integrate.solve_ivp" for r in itc.calls)
+    ctx.check("C16.1", reached and not refused, fb, refused[0].node if refused else fb.node, "FBG: a callable object (np.poly1d, functools.partial, an interpolator) is accepted as the profile",
+              "recognised by callable(), reaches the solver on every path",
+              f"with an apodisation that is a callable object a path ends in {refused[0].exc if refused else 'no call of the solver'}: the profile is recognised by its type (a function object), "
+              "so np.poly1d([0.5]), functools.partial(...) or a scipy interpolator are refused although they are user callables")
     for apo in (False, True):
         it = Interp(pkg, assumptions={"apo_func": ("truth", True) if apo else None})     # no profile: the function is None (falsy)
         outs = it.run(fi)
